@@ -208,6 +208,46 @@ impl Expected {
 
     fn payload_intrinsics(&mut self, resolve: &Resolve, key: Option<&WorldKey>, f: &Function, exported: bool) {
         let item = item_name(resolve, key, &f.name);
+        // `future`/`stream` without a payload type may be named `...-unit]<func>`
+        // (wit-parser's `ty: None`; the encoder accepts it for any function)
+        {
+            use FutureIntrinsic as F;
+            use StreamIntrinsic as S;
+            for (intr, async_, sig) in [
+                (F::New, false, Sig::new(&[], &[I64])),
+                (F::Read, false, Sig::new(&[I32, I32], &[I32])),
+                (F::Read, true, Sig::new(&[I32, I32], &[I32])),
+                (F::Write, false, Sig::new(&[I32, I32], &[I32])),
+                (F::Write, true, Sig::new(&[I32, I32], &[I32])),
+                (F::CancelRead, false, Sig::new(&[I32], &[I32])),
+                (F::CancelRead, true, Sig::new(&[I32], &[I32])),
+                (F::CancelWrite, false, Sig::new(&[I32], &[I32])),
+                (F::CancelWrite, true, Sig::new(&[I32], &[I32])),
+                (F::DropReadable, false, Sig::new(&[I32], &[])),
+                (F::DropWritable, false, Sig::new(&[I32], &[])),
+            ] {
+                let (m, n) = resolve
+                    .wasm_import_name(ACB, WasmImport::FutureIntrinsic { interface: key, func: f, ty: None, intrinsic: intr, exported, async_ });
+                self.imports.insert((m, n), ExpImport { kind: "future-unit", item: item.clone(), sig: Some(sig) });
+            }
+            for (intr, async_, sig) in [
+                (S::New, false, Sig::new(&[], &[I64])),
+                (S::Read, false, Sig::new(&[I32, I32, I32], &[I32])),
+                (S::Read, true, Sig::new(&[I32, I32, I32], &[I32])),
+                (S::Write, false, Sig::new(&[I32, I32, I32], &[I32])),
+                (S::Write, true, Sig::new(&[I32, I32, I32], &[I32])),
+                (S::CancelRead, false, Sig::new(&[I32], &[I32])),
+                (S::CancelRead, true, Sig::new(&[I32], &[I32])),
+                (S::CancelWrite, false, Sig::new(&[I32], &[I32])),
+                (S::CancelWrite, true, Sig::new(&[I32], &[I32])),
+                (S::DropReadable, false, Sig::new(&[I32], &[])),
+                (S::DropWritable, false, Sig::new(&[I32], &[])),
+            ] {
+                let (m, n) = resolve
+                    .wasm_import_name(ACB, WasmImport::StreamIntrinsic { interface: key, func: f, ty: None, intrinsic: intr, exported, async_ });
+                self.imports.insert((m, n), ExpImport { kind: "stream-unit", item: item.clone(), sig: Some(sig) });
+            }
+        }
         for id in f.find_futures_and_streams(resolve) {
             match &resolve.types[id].kind {
                 TypeDefKind::Future(_) => {
